@@ -1,6 +1,7 @@
 package cluster
 
 import (
+	"bytes"
 	"fmt"
 	"io"
 	"os"
@@ -48,7 +49,9 @@ func (c *ClusterNode) syncUserCollections() error {
 						Bucket:    USERCOLSBUCKETKEY,
 					}
 				}
-				postage[destination].KeyValues[string(k)] = v
+				// The value is only valid during this read transaction and it
+				// is sent after the transaction has ended, so we copy it.
+				postage[destination].KeyValues[string(k)] = bytes.Clone(v)
 			}
 			return nil
 		})
